@@ -52,7 +52,8 @@ type input struct {
 	pd      *pdInfo            // path events of h (kinds *-pathdel), or nil
 	lin     []synth.LinearStep // linear history (full) when h == nil
 	light   bool               // large case: the sparse histories and final files are not rendered
-	reuse   bool               // the BurndownAnalysis instance has analysed another repository before (R3-1)
+	reuse   int                // 1: the BurndownAnalysis instance has analysed another repository before (R3-1);
+	//                            2: that earlier analysis ended in a panic (only a binary file: F11) - fail, then re-use (R3-2)
 }
 
 var hibDir string
@@ -485,8 +486,8 @@ func runPipeline(in *input, repo *git.Repository, commits []*object.Commit) (obs
 	}
 	p := hercules.NewPipeline(repo)
 	b := &leaves.BurndownAnalysis{}
-	if in.reuse {
-		warmUp(b)
+	if in.reuse > 0 {
+		warmUp(b, in.reuse == 2)
 	}
 	p.DeployItem(b)
 	lg := &recLog{}
@@ -685,8 +686,8 @@ func emit(c *Config, in *input) {
 	fields = append(fields, T("nt", B(nt)), T("g", I(in.g)), T("s", I(in.s)), T("files", B(in.files)),
 		T("people", B(in.people)), T("hib", I(in.hib)), T("hibmode", A(in.hibmode)), T("thr", I(in.thr)),
 		T("keep", Ints(in.keep).List...))
-	if in.reuse {
-		fields = append(fields, T("reuse", I(1)))
+	if in.reuse > 0 {
+		fields = append(fields, T("reuse", I(in.reuse)))
 	}
 	fields = append(fields, histFields...)
 	fields = append(fields, T("obs", obs))
@@ -718,7 +719,10 @@ func params(rng *rand.Rand, in *input, allowHib bool) {
 	}
 	in.files = rng.Intn(2) == 0
 	in.people = rng.Intn(2) == 0
-	in.reuse = rng.Intn(6) == 0
+	in.reuse = 0
+	if rng.Intn(6) == 0 {
+		in.reuse = 1 + rng.Intn(2)
+	}
 	in.hibmode = "none"
 	if allowHib && rng.Intn(4) == 0 {
 		in.hib = 1 + rng.Intn(3)
@@ -907,7 +911,7 @@ func replay(c *Config) {
 		in.people = fieldInt(cs, "people", 0) != 0
 		in.hib = fieldInt(cs, "hib", 0)
 		in.thr = fieldInt(cs, "thr", 0)
-		in.reuse = fieldInt(cs, "reuse", 0) != 0
+		in.reuse = fieldInt(cs, "reuse", 0)
 		if f, ok := cs.Field("hibmode"); ok && len(f.Args()) == 1 {
 			in.hibmode = f.Args()[0].Atom
 		}
@@ -1061,11 +1065,15 @@ func main() {
 // pipeline): a history with the path names of the generated cases in which a file is renamed and deleted on a branch,
 // re-created, flipped to binary, with three authors, file and people tracking on.  Whatever it leaves behind in the
 // instance (deletions, renames, histories, files, ticks) must be reset by the Initialize of the observed run.
-var warmRepo *git.Repository
-var warmCommits []*object.Commit
+var warmRepo, failRepo *git.Repository
+var warmCommits, failCommits []*object.Commit
 
-func warmUp(b *leaves.BurndownAnalysis) {
+func warmUp(b *leaves.BurndownAnalysis, failing bool) {
 	defer func() { recover() }()
+	if failRepo == nil {
+		failRepo, failCommits = synth.BuildRepo([]synth.CommitSpec{{AuthorName: "dev0", AuthorEmail: "dev0@x",
+			AuthorWhen: time.Unix(synth.BaseTime, 0), Files: []synth.FileSpec{{Path: "a", Data: []byte{'x', 0, '\n'}}}}})
+	}
 	if warmRepo == nil {
 		txt := func(n int, tag string) []byte {
 			var d []byte
@@ -1086,11 +1094,15 @@ func warmUp(b *leaves.BurndownAnalysis) {
 		}
 		warmRepo, warmCommits = synth.BuildRepo(cs)
 	}
-	p := hercules.NewPipeline(warmRepo)
+	repo, commits := warmRepo, warmCommits
+	if failing {
+		repo, commits = failRepo, failCommits // Finalize panics "empty history"; the panic is swallowed here
+	}
+	p := hercules.NewPipeline(repo)
 	p.DeployItem(b)
 	facts := map[string]interface{}{
 		hercules.ConfigLogger:            silent{},
-		hercules.ConfigPipelineCommits:   warmCommits,
+		hercules.ConfigPipelineCommits:   commits,
 		leaves.ConfigBurndownGranularity: 3,
 		leaves.ConfigBurndownSampling:    2,
 		leaves.ConfigBurndownTrackFiles:  true,
@@ -1099,5 +1111,5 @@ func warmUp(b *leaves.BurndownAnalysis) {
 	if err := p.Initialize(facts); err != nil {
 		return
 	}
-	p.Run(warmCommits)
+	p.Run(commits)
 }
